@@ -135,6 +135,9 @@ func run(c *hc.Ctx) {
 	if want("gradlookup") {
 		g.gradLookup()
 	}
+	if want("hist") {
+		g.histories()
+	}
 }
 
 // ---- 1a. fixed point ----
@@ -388,6 +391,140 @@ func (g *gen) aliasing() {
 		}
 		c.Count(fmt.Sprintf("scs space=%d radial=%v", csi, radial))
 		c.Distinct("scs" + line)
+	}
+}
+
+// ---- 1e. SetColorSpace over call histories: each result is the pure function of the receiver's value ----
+
+type gradObj struct {
+	lin *canvas.LinearGradient
+	rad *canvas.RadialGradient
+}
+
+func (o gradObj) g() canvas.Gradient {
+	if o.lin != nil {
+		return o.lin
+	}
+	return o.rad
+}
+func (o gradObj) stops() *canvas.Stops {
+	if o.lin != nil {
+		return &o.lin.Stops
+	}
+	return &o.rad.Stops
+}
+func (o gradObj) geom() []float64 {
+	if o.lin != nil {
+		return []float64{o.lin.Start.X, o.lin.Start.Y, o.lin.End.X, o.lin.End.Y}
+	}
+	return []float64{o.rad.C0.X, o.rad.C0.Y, o.rad.R0, o.rad.C1.X, o.rad.C1.Y, o.rad.R1}
+}
+func wrapGrad(gr canvas.Gradient) gradObj {
+	switch v := gr.(type) {
+	case *canvas.LinearGradient:
+		return gradObj{lin: v}
+	case *canvas.RadialGradient:
+		return gradObj{rad: v}
+	}
+	return gradObj{}
+}
+
+func valueTokens(geom []float64, st canvas.Stops) string {
+	var sb strings.Builder
+	sb.WriteString(hc.Hs(geom...))
+	sb.WriteString(" |")
+	for _, x := range st {
+		fmt.Fprintf(&sb, " %s %d", hc.H(x.Offset), colNat(x.Color))
+	}
+	return strings.TrimSpace(sb.String())
+}
+
+func (g *gen) histories() {
+	c := g.c
+	spaces := []canvas.ColorSpace{canvas.LinearColorSpace{}, canvas.SRGBColorSpace{}, canvas.GammaColorSpace{Gamma: 2.2}, canvas.GammaColorSpace{Gamma: 1.8}}
+	rcol := func() color.RGBA { return color.RGBA{uint8(c.Intn(256)), uint8(c.Intn(256)), uint8(c.Intn(256)), 255} }
+	n := c.N / 6
+	if n < 10 {
+		n = 10
+	}
+	for it := 0; it < n; it++ {
+		var objs []gradObj
+		if c.Chance(0.7) {
+			lg := canvas.NewLinearGradient(canvas.Point{X: float64(c.Intn(5)), Y: float64(c.Intn(5))}, canvas.Point{X: float64(6 + c.Intn(20)), Y: float64(c.Intn(10))})
+			objs = append(objs, gradObj{lin: lg})
+		} else {
+			rg := canvas.NewRadialGradient(canvas.Point{X: float64(c.Intn(9)), Y: float64(c.Intn(9))}, float64(c.Intn(3)), canvas.Point{X: float64(c.Intn(9)), Y: float64(c.Intn(9))}, float64(4+c.Intn(9)))
+			objs = append(objs, gradObj{rad: rg})
+		}
+		ns := 2 + c.Intn(3)
+		for k := 0; k < ns; k++ {
+			*objs[0].stops() = append(*objs[0].stops(), canvas.Stop{Offset: float64(k) / float64(ns-1), Color: rcol()})
+		}
+		var hist []string
+		steps := 4 + c.Intn(8)
+		for step := 0; step < steps; step++ {
+			o := objs[c.Intn(len(objs))]
+			st := o.stops()
+			// a mutation (or none) between two calls
+			switch c.Intn(7) {
+			case 0:
+				if len(*st) > 0 {
+					i := c.Intn(len(*st))
+					(*st)[i].Color = rcol()
+					hist = append(hist, fmt.Sprintf("Stops[%d].Color=", i))
+				}
+			case 1: // Add on an existing offset replaces the colour
+				if len(*st) > 0 {
+					i := c.Intn(len(*st))
+					st.Add((*st)[i].Offset, rcol())
+					hist = append(hist, fmt.Sprintf("Add(existing offset %d)", i))
+				}
+			case 2:
+				st.Add(c.Float(), rcol())
+				hist = append(hist, "Add(new offset)")
+			case 3:
+				if len(*st) > 2 {
+					i := 1 + c.Intn(len(*st)-2)
+					(*st)[i].Offset = ((*st)[i-1].Offset + (*st)[i+1].Offset) / 2
+					hist = append(hist, fmt.Sprintf("Stops[%d].Offset=", i))
+				}
+			case 4: // a SetView copy becomes a further object of the history
+				m := canvas.Identity.Translate(float64(1+c.Intn(9)), float64(1+c.Intn(9))).Scale(0.5*float64(1+c.Intn(4)), 0.5*float64(1+c.Intn(4)))
+				objs = append(objs, wrapGrad(o.g().SetView(m)))
+				o = objs[len(objs)-1]
+				st = o.stops()
+				hist = append(hist, "SetView copy")
+			}
+			// the call
+			csi := c.Intn(len(spaces))
+			cs := spaces[csi]
+			geomBefore := o.geom()
+			stBefore := append(canvas.Stops{}, (*st)...)
+			var mp []string
+			for _, x := range stBefore {
+				mp = append(mp, fmt.Sprint(colNat(cs.ToLinear(x.Color))))
+			}
+			res := wrapGrad(o.g().SetColorSpace(cs))
+			hist = append(hist, fmt.Sprintf("SetColorSpace(%T%v)", cs, cs))
+			in := valueTokens(geomBefore, stBefore)
+			parts := strings.SplitN(in, " |", 2)
+			line := fmt.Sprintf("SCSH %s %d %s %d%s MAP %s", hc.B(csi == 0), len(geomBefore), parts[0], len(stBefore), parts[1], strings.Join(mp, " "))
+			c.Case(strings.TrimSpace(line), "=", valueTokens(res.geom(), *res.stops()))
+			// oracles: the receiver keeps its value; the result is the conversion of the receiver's CURRENT value
+			c.Evals++
+			if valueTokens(o.geom(), *st) != in {
+				c.Fail("impure:SetColorSpace-mutates-stops", "SetColorSpace changed its receiver: "+in+" -> "+valueTokens(o.geom(), *st), map[string]any{"history": hist})
+			}
+			want := append(canvas.Stops{}, stBefore...)
+			for i := range want {
+				want[i].Color = cs.ToLinear(want[i].Color)
+			}
+			if got, exp := valueTokens(res.geom(), *res.stops()), valueTokens(geomBefore, want); got != exp {
+				c.Fail("SetColorSpace-depends-on-history", fmt.Sprintf("after the history %v the result is %s, but the receiver's value %s converts to %s", hist, got, in, exp), map[string]any{"history": hist, "receiver": in, "result": got, "expected": exp})
+			}
+			c.Count(fmt.Sprintf("history call space=%d step=%d", csi, min(step, 6)))
+			c.Distinct("hist" + line + fmt.Sprint(step, it))
+		}
 	}
 }
 
@@ -791,6 +928,75 @@ func gradRangeT(st []gstop, t0, dt float64) (lo, hi [4]float64) {
 	return
 }
 
+// sRGB transfer functions (EXT_sRGB), written from the standard
+func srgbToLin(c float64) float64 {
+	if c <= 0.04045 {
+		return c / 12.92
+	}
+	return math.Pow((c+0.055)/1.055, 2.4)
+}
+func linToSrgb(c float64) float64 {
+	switch {
+	case c <= 0:
+		return 0
+	case c < 0.0031308:
+		return 12.92 * c
+	case c < 1:
+		return 1.055*math.Pow(c, 1/2.4) - 0.055
+	}
+	return 1
+}
+
+// expected colour range of a gradient rendered in the given colour space: in sRGB the stops are taken
+// to linear light (8 bit), interpolated there, and the image is taken back; the 8-bit steps in linear
+// light (stop rounding 0.5, interpolation truncation 1) are widened before going back
+func gradRangeSpace(st []gstop, t0, dt float64, linearSpace bool) (lo, hi [4]float64, tol float64) {
+	if linearSpace {
+		lo, hi = gradRangeT(st, t0, dt)
+		return lo, hi, 2
+	}
+	for k := 0; k < 4; k++ {
+		lo[k], hi[k] = 1e9, -1e9
+	}
+	ts := []float64{t0 - dt, t0, t0 + dt}
+	for _, sst := range st {
+		if sst.off > t0-dt && sst.off < t0+dt {
+			ts = append(ts, sst.off)
+		}
+	}
+	lin := func(c color.RGBA) [4]float64 {
+		return [4]float64{255 * srgbToLin(float64(c.R)/255), 255 * srgbToLin(float64(c.G)/255), 255 * srgbToLin(float64(c.B)/255), float64(c.A)}
+	}
+	at := func(t float64) [4]float64 {
+		if t <= st[0].off {
+			return lin(st[0].col)
+		}
+		for i := 1; i < len(st); i++ {
+			if t < st[i].off {
+				u := (t - st[i-1].off) / (st[i].off - st[i-1].off)
+				a, b := lin(st[i-1].col), lin(st[i].col)
+				var v [4]float64
+				for k := range v {
+					v[k] = (1-u)*a[k] + u*b[k]
+				}
+				return v
+			}
+		}
+		return lin(st[len(st)-1].col)
+	}
+	for _, t := range ts {
+		v := at(t)
+		for k := 0; k < 4; k++ {
+			lo[k], hi[k] = math.Min(lo[k], v[k]), math.Max(hi[k], v[k])
+		}
+	}
+	for k := 0; k < 3; k++ {
+		lo[k] = 255 * linToSrgb(math.Max(lo[k]-1.6, 0)/255)
+		hi[k] = 255 * linToSrgb(math.Min(hi[k]+1.6, 255)/255)
+	}
+	return lo, hi, 1.6
+}
+
 // gradient geometry, evaluated independently of the library: parameter at p and |dt/dp|
 type ggeom struct {
 	radial bool
@@ -885,7 +1091,7 @@ func (g *gen) gradLookup() {
 
 func (g *gen) gradients() {
 	c := g.c
-	n := c.N / 10
+	n := c.N / 6
 	if n < 6 {
 		n = 6
 	}
@@ -896,7 +1102,7 @@ func (g *gen) gradients() {
 			dpmm = lowResolutions[c.Intn(4)]
 			W, H = math.Round(W/dpmm), math.Round(H/dpmm)
 		}
-		linear := !c.Chance(0.3)
+		linear := c.Bool()
 		var space canvas.ColorSpace = canvas.LinearColorSpace{}
 		if !linear {
 			space = canvas.SRGBColorSpace{}
@@ -983,46 +1189,138 @@ func (g *gen) gradients() {
 		}
 		c.Count(fmt.Sprintf("gradient dir=%d stroke=%v dpmm=%.3g linear=%v", dir, stroke, dpmm, linear))
 		c.Distinct(fmt.Sprint(replay))
-		if !linear {
-			continue // colour maths of the non-linear spaces is left open; units are judged in linear space
-		}
-		wpx, hpx := img.Bounds().Dx(), img.Bounds().Dy()
-		bad, badUnits := 0, 0
-		var first string
-		for k := 0; k < 60; k++ {
-			i, j := 1+c.Intn(wpx-2), 1+c.Intn(hpx-2)
-			px := img.RGBAAt(i, j)
-			mm := hc.P2{X: (float64(i) + 0.5) / dpmm, Y: (float64(hpx) - float64(j) - 0.5) / dpmm}
-			if mm.Y < bandLo+1.5/dpmm || mm.Y > bandHi-1.5/dpmm {
-				if stroke && (mm.Y < bandLo-1.5/dpmm || mm.Y > bandHi+1.5/dpmm) && px != (color.RGBA{}) {
-					c.Fail("gradient-stroke-outside-band", fmt.Sprintf("pixel (%d,%d) = canvas (%.3g,%.3g) mm lies outside the stroked band but has colour %v", i, j, mm.X, mm.Y, px), replay)
+
+		// judge an image against a gradient specification (geometry + stops) in a colour space; `old` (if
+		// any) is the specification before a mutation: matching it instead is the stale-gradient class
+		judge := func(img *image.RGBA, geo ggeom, st []gstop, linearSpace bool, oldGeo *ggeom, oldSt []gstop, what string, replay map[string]any) {
+			wpx, hpx := img.Bounds().Dx(), img.Bounds().Dy()
+			bad, badUnits, badStale := 0, 0, 0
+			var first string
+			for k := 0; k < 60; k++ {
+				i, j := 1+c.Intn(wpx-2), 1+c.Intn(hpx-2)
+				px := img.RGBAAt(i, j)
+				mm := hc.P2{X: (float64(i) + 0.5) / dpmm, Y: (float64(hpx) - float64(j) - 0.5) / dpmm}
+				if mm.Y < bandLo+1.5/dpmm || mm.Y > bandHi-1.5/dpmm {
+					if stroke && (mm.Y < bandLo-1.5/dpmm || mm.Y > bandHi+1.5/dpmm) && px != (color.RGBA{}) {
+						c.Fail("gradient-stroke-outside-band", fmt.Sprintf("pixel (%d,%d) = canvas (%.3g,%.3g) mm lies outside the stroked band but has colour %v", i, j, mm.X, mm.Y, px), replay)
+					}
+					continue
 				}
-				continue
+				lo, hi, tol := gradRangeSpace(st, geo.t(mm), geo.slope()/dpmm, linearSpace)
+				c.Evals++
+				if inRange(px, lo, hi, tol) {
+					continue
+				}
+				bad++
+				// hypothesis: evaluated at the pixel indices (x, y) instead of millimetres
+				lo2, hi2, _ := gradRangeSpace(st, geo.t(hc.P2{X: float64(i), Y: float64(j)}), geo.slope(), linearSpace)
+				if inRange(px, lo2, hi2, tol) {
+					badUnits++
+				}
+				// hypothesis: the gradient as it was before the mutation
+				if oldGeo != nil {
+					lo3, hi3, _ := gradRangeSpace(oldSt, oldGeo.t(mm), oldGeo.slope()/dpmm, linearSpace)
+					if inRange(px, lo3, hi3, tol) {
+						badStale++
+					}
+				}
+				if first == "" {
+					first = fmt.Sprintf("pixel (%d,%d) = canvas (%.3g,%.3g) mm has colour %v, expected within %v..%v", i, j, mm.X, mm.Y, px, lo, hi)
+				}
 			}
-			lo, hi := gradRangeT(st, geo.t(mm), geo.slope()/dpmm)
-			c.Evals++
-			if inRange(px, lo, hi, 2) {
-				continue
-			}
-			bad++
-			// hypothesis: evaluated at the pixel indices (x, y) instead of millimetres
-			lo2, hi2 := gradRangeT(st, geo.t(hc.P2{X: float64(i), Y: float64(j)}), geo.slope())
-			if inRange(px, lo2, hi2, 2) {
-				badUnits++
-			}
-			if first == "" {
-				first = fmt.Sprintf("pixel (%d,%d) = canvas (%.3g,%.3g) mm has colour %v, expected within %v..%v", i, j, mm.X, mm.Y, px, lo, hi)
+			if bad > 0 {
+				kind := "gradient-colour-wrong"
+				if oldGeo != nil && bad == badStale {
+					kind = "gradient-stale-after-mutation"
+				} else if bad == badUnits {
+					kind = "gradient-pixel-units"
+				}
+				replay["first"] = first
+				c.Fail(kind, fmt.Sprintf("%s: %d of 60 sampled pixels have the wrong gradient colour (%d explained by evaluation at pixel indices, %d by the gradient before the mutation); %s", what, bad, badUnits, badStale, first), replay)
+			} else {
+				c.Count(fmt.Sprintf("gradient colours agree with millimetre evaluation (%s, linear=%v)", what, linearSpace))
 			}
 		}
-		if bad > 0 {
-			kind := "gradient-colour-wrong"
-			if bad == badUnits {
-				kind = "gradient-pixel-units"
+		judge(img, geo, st, linear, nil, nil, "first render", replay)
+
+		// HISTORY: the gradient object has now been rendered. Mutate it (or derive a view copy, or
+		// nothing), draw it on a fresh canvas, render in the same or another colour space, and judge the
+		// second image against the MUTATED gradient: rendering must leave no state behind in the gradient
+		if c.Chance(0.25) {
+			continue
+		}
+		oldGeo, oldSt := geo, append([]gstop{}, st...)
+		geo2, st2 := geo, append([]gstop{}, st...)
+		gr2 := gr
+		mut := c.Intn(4)
+		mutName := ""
+		switch mut {
+		case 0: // replace every stop colour, count unchanged
+			mutName = "recolour"
+			for i := range st2 {
+				col := g.colour(used)
+				st2[i].col = col
+				if c.Bool() {
+					(*grStops)[i].Color = col
+				} else {
+					add(st2[i].off, col) // Add on an existing offset replaces the colour
+				}
 			}
-			replay["first"] = first
-			c.Fail(kind, fmt.Sprintf("%d of 60 sampled pixels have the wrong gradient colour (%d explained by evaluation at pixel indices); %s", bad, badUnits, first), replay)
+		case 1: // move an inner stop (3 stops) or insert one (count changes)
+			if len(st2) == 3 {
+				mutName = "move-offset"
+				st2[1].off = []float64{0.2, 0.35, 0.65, 0.8}[c.Intn(4)]
+				(*grStops)[1].Offset = st2[1].off
+			} else {
+				mutName = "insert-stop"
+				col := g.colour(used)
+				st2 = []gstop{st2[0], {0.5, col}, st2[1]}
+				add(0.5, col)
+			}
+		case 2: // a SetView copy (translated, scaled), taken AFTER the first render
+			mutName = "setview-copy"
+			dx, dy, sc := W*(0.1+0.2*c.Float()), H*(0.1+0.2*c.Float()), []float64{1, 0.5, 0.75}[c.Intn(3)]
+			if geo.radial {
+				sc = 1 // RadialGradient.SetView moves the centres only
+			}
+			gr2 = gr.SetView(canvas.Identity.Translate(dx, dy).Scale(sc, sc))
+			tr := func(p hc.P2) hc.P2 { return hc.P2{X: dx + sc*p.X, Y: dy + sc*p.Y} }
+			geo2.s, geo2.e = tr(geo.s), tr(geo.e)
+			// (radii are not scaled by RadialGradient.SetView: only the centres move)
+		default:
+			mutName = "none"
+		}
+		linear2 := c.Bool()
+		var space2 canvas.ColorSpace = canvas.LinearColorSpace{}
+		if !linear2 {
+			space2 = canvas.SRGBColorSpace{}
+		}
+		cv2 := canvas.New(W, H)
+		ctx2 := canvas.NewContext(cv2)
+		if stroke {
+			ctx2.SetFillColor(canvas.Transparent)
+			ctx2.SetStrokeGradient(gr2)
+			ctx2.SetStrokeWidth(0.6 * H)
+			ctx2.SetStrokeCapper(canvas.ButtCap)
+			mid := &canvas.Path{}
+			mid.MoveTo(0, H/2)
+			mid.LineTo(W, H/2)
+			ctx2.DrawPath(0, 0, mid)
 		} else {
-			c.Count("gradient colours agree with millimetre evaluation")
+			ctx2.SetFillGradient(gr2)
+			ctx2.DrawPath(0, 0, canvas.Rectangle(W, H))
 		}
+		replay2 := map[string]any{"W": W, "H": H, "dpmm": dpmm, "radial": geo.radial, "stroke": stroke,
+			"first render": map[string]any{"linear": linear, "start": []float64{s.X, s.Y}, "end": []float64{e.X, e.Y}, "r0": geo.r0, "r1": geo.r1, "stops": fmt.Sprint(oldSt)},
+			"mutation":     mutName,
+			"second render": map[string]any{"linear": linear2, "start": []float64{geo2.s.X, geo2.s.Y}, "end": []float64{geo2.e.X, geo2.e.Y}, "stops": fmt.Sprint(st2)}}
+		var img3 *image.RGBA
+		if msg := hc.Try(func() { img3 = rasterizer.Draw(cv2, canvas.DPMM(dpmm), space2) }); msg != "" {
+			c.Fail("panic:Draw:"+strings.SplitN(msg, "\n", 2)[0], "rasterizer.Draw panicked: "+msg, replay2)
+			continue
+		}
+		c.Count(fmt.Sprintf("gradient history: %v -> %s -> %v", map[bool]string{true: "linear", false: "sRGB"}[linear], mutName, map[bool]string{true: "linear", false: "sRGB"}[linear2]))
+		c.Distinct(fmt.Sprint(replay2))
+		judge(img3, geo2, st2, linear2, &oldGeo, oldSt, "render after "+mutName, replay2)
 	}
 }
